@@ -50,6 +50,30 @@ func methodPred(w *World, rel, name string) func(ssa.Instruction) bool {
 	return callsTo(w.FuncObj(rel, name))
 }
 
+// endSnapshotPred: the step that ends snapshot mode — EndSnapshotMode (the caller re-appends what it returns) or
+// EndSnapshotModeRequeue (the writer puts the shadow writes back into its own queue in the same step).
+func endSnapshotPred(w *World) func(ssa.Instruction) bool {
+	var fs []*types.Func
+	for _, n := range []string{"LazyAOFWriter.EndSnapshotMode", "LazyAOFWriter.EndSnapshotModeRequeue"} {
+		if f := w.FuncObj("pkg/persistence", n); f != nil {
+			fs = append(fs, f)
+		}
+	}
+	return callsTo(fs...)
+}
+
+// shadowToLogPred: the step that gets the shadow writes into the log file after snapshot mode ended: the re-append
+// loop of the caller (Write) — or, when the function ends the mode through EndSnapshotModeRequeue, the Flush/Sync that
+// pushes the writer's queue out.
+func shadowToLogPred(w *World, fn *ssa.Function) func(ssa.Instruction) bool {
+	write := w.FuncObj("pkg/persistence", "LazyAOFWriter.Write")
+	rq := w.FuncObj("pkg/persistence", "LazyAOFWriter.EndSnapshotModeRequeue")
+	if rq != nil && len(findInstrs(fn, callsTo(rq))) > 0 {
+		return callsTo(w.FuncObj("pkg/persistence", "LazyAOFWriter.Flush"), w.FuncObj("pkg/persistence", "LazyAOFWriter.Sync"))
+	}
+	return callsTo(write)
+}
+
 // fieldLoad reports whether v is (a load of) the named field of a struct.
 func isFieldLoad(v ssa.Value, field string) bool {
 	u, ok := v.(*ssa.UnOp)
@@ -126,8 +150,8 @@ func ruleORD1(w *World, r *Report) {
 			{"DB.Snapshot", methodPred(w, "pkg/core", "DB.Snapshot")},
 			{"Rename(tmp,snapPath)", renameOntoSnap},
 			{"AOF.Truncate", methodPred(w, "pkg/persistence", "LazyAOFWriter.Truncate")},
-			{"EndSnapshotMode", methodPred(w, "pkg/persistence", "LazyAOFWriter.EndSnapshotMode")},
-			{"AOF.Write(shadow)", methodPred(w, "pkg/persistence", "LazyAOFWriter.Write")},
+			{"EndSnapshotMode", endSnapshotPred(w)},
+			{"AOF.Write(shadow)", shadowToLogPred(w, fn)},
 		}
 		checkChain(w, r, "ORD-1", where, fn, pos, steps)
 		// the file handed to DB.Snapshot must not be opened on snapPath itself
@@ -219,8 +243,8 @@ func ruleORD2(w *World, r *Report) {
 			{"state-capture", capture},
 			{"temp.Flush", methodPred(w, "pkg/persistence", "AOFWriter.Flush")},
 			{"AOF.ReplaceWith", replacePred},
-			{"EndSnapshotMode", methodPred(w, "pkg/persistence", "LazyAOFWriter.EndSnapshotMode")},
-			{"AOF.Write(shadow)", methodPred(w, "pkg/persistence", "LazyAOFWriter.Write")},
+			{"EndSnapshotMode", endSnapshotPred(w)},
+			{"AOF.Write(shadow)", shadowToLogPred(w, fn)},
 		}
 		checkChain(w, r, "ORD-2", where, fn, pos, steps)
 		// every capture call comes after Begin (not just the first)
@@ -452,6 +476,7 @@ func ruleORD4(w *World, r *Report) {
 	r.Doc("ORD-4", "every successful BeginSnapshotMode is followed on every path by EndSnapshotMode, and the writes EndSnapshotMode returns are re-journaled (never discarded)", 4)
 	begin := w.FuncObj("pkg/persistence", "LazyAOFWriter.BeginSnapshotMode")
 	end := w.FuncObj("pkg/persistence", "LazyAOFWriter.EndSnapshotMode")
+	requeue := w.FuncObj("pkg/persistence", "LazyAOFWriter.EndSnapshotModeRequeue") // nil on a tree that does not have it
 	write := w.FuncObj("pkg/persistence", "LazyAOFWriter.Write")
 	if begin == nil || end == nil || write == nil {
 		r.Und("ORD-4", "anchor:snapshot-mode-api", "", "anchor lost")
@@ -485,17 +510,24 @@ func ruleORD4(w *World, r *Report) {
 				r.Cond(used, "ORD-4", key, w.Pos(c.Pos()), "returned writes are re-journaled in a loop",
 					"the writes returned by EndSnapshotMode are discarded here: every write acknowledged while snapshot mode was active is dropped from the log and lost on restart")
 			}
+			// an end through EndSnapshotModeRequeue needs no loop: the writer re-queues the shadow writes itself (ORD-12)
+			if requeue != nil {
+				for _, ei := range findInstrs(f, callsTo(requeue)) {
+					r.Ok("ORD-4", "EndSnapshotMode@"+fnName(f), w.Pos(ei.Pos()), "snapshot mode is ended through EndSnapshotModeRequeue: the writer puts the shadow writes back into its queue")
+				}
+			}
 		}
 		// (b) after a successful Begin every exit passes an End (directly or via a deferred closure that calls it)
 		for _, bi := range begins {
+			isEnd := callsTo(end, requeue)
 			endsOrDefer := func(in ssa.Instruction) bool {
-				if callsTo(end)(in) {
+				if isEnd(in) {
 					return true
 				}
 				// a defer registered AFTER begin does not help paths before it; defers registered are run at every exit
 				if d, ok := in.(*ssa.Defer); ok {
 					if mc, ok := d.Call.Value.(*ssa.MakeClosure); ok {
-						if cf, ok := mc.Fn.(*ssa.Function); ok && len(findInstrs(cf, callsTo(end))) > 0 {
+						if cf, ok := mc.Fn.(*ssa.Function); ok && len(findInstrs(cf, isEnd)) > 0 {
 							return true
 						}
 					}
